@@ -8,7 +8,7 @@ from .unit import Unit
 from .rsx import ExtractError
 
 VERIF = os.path.dirname(os.path.dirname(os.path.abspath(__file__)))
-BUILD = os.path.join(VERIF, 'build')
+BUILD = os.path.join(os.environ.get('VERIF_OUT', VERIF), 'build')
 
 ASSUME_PATTERNS = [
     ('external_body', r'external_body'),
